@@ -237,9 +237,10 @@ class ApplyNativeRewriteOp(IRDLOperation):
     @classmethod
     def parse(cls, parser: Parser) -> ApplyNativeRewriteOp:
         name = parser.parse_str_literal()
-        parser.parse_punctuation("(")
-        operands = parse_operands_with_types(parser)
-        parser.parse_punctuation(")")
+        operands: list[SSAValue] = []
+        if parser.parse_optional_punctuation("(") is not None:
+            operands = parse_operands_with_types(parser)
+            parser.parse_punctuation(")")
         result_types = []
         if parser.parse_optional_punctuation(":") is not None:
             result_types = parser.parse_comma_separated_list(
@@ -250,8 +251,9 @@ class ApplyNativeRewriteOp(IRDLOperation):
     def print(self, printer: Printer) -> None:
         printer.print_string(" ")
         printer.print_string_literal(self.constraint_name.data)
-        with printer.in_parens():
-            print_operands_with_types(printer, self.operands)
+        if self.operands:
+            with printer.in_parens():
+                print_operands_with_types(printer, self.operands)
         if len(self.results) != 0:
             printer.print_string(" : ")
             printer.print_list(self.result_types, printer.print_attribute)
